@@ -12,6 +12,6 @@ CONSTANTS
   Closes = FALSE
   Bug = "nocheck"
 SYMMETRY Sym2
-INVARIANTS WaiterConsistent EventGoesToItsWaiter NoLostReadiness NoAddFailure RegisteredNothingWhenNoInterest
+INVARIANTS EventGoesToItsWaiter
 PROPERTY TimeoutIsolated
 CHECK_DEADLOCK FALSE
